@@ -125,6 +125,13 @@ def cases(rng, tier, feats, drv_ok):
             for cc in (0, 1, cols // 2, cols * 2):
                 if cc == cols: continue
                 add(b, PL.setp(b.v, I['cfg.fri.inner_layers'], (li, 0), cc), 'redeclared:fri-layer-columns', f'layer{li}={cc}')
+        # the friendly-layer count re-declared CONSISTENTLY in the global field and in every table / vector config (equality is all the
+        # validation asks of it): a value no narrowing conversion can hold must still be an error, not a crash
+        for nf in [(1 << 32) - 1, 1 << 32, (1 << 64) - 1, 1 << 64, 1 << 128, P - 1]:
+            v = PL.setp(b.v, I['cfg.n_verifier_friendly'], (), nf)
+            for key in ('cfg.traces.original', 'cfg.traces.interaction', 'cfg.composition', 'cfg.fri.inner_layers'):
+                v = PL.setp(v, I[key], (), [[r[0], r[1], nf] for r in b.v[I[key]]])
+            add(b, v, 'redeclared:n_friendly', hex(nf))
         # pairs
         vecs = b.vectors()
         for _ in range(40 if tier == 'quick' else 400):
